@@ -487,10 +487,50 @@ def phase_divisor_multiples(case, res):
                         res.hits["dividend just below a multiple of the divisor"] += 1
 
 
+def quantity_dividend(case, res):
+    """Quantity // Phase, % and divmod (the Phase as RIGHT operand): same exact arithmetic, remainder a Phase."""
+    for cnt, fr in ((3.0, 2.0 ** -60), (1000000.0, 0.3), (7.0, 1e-17), (100.0, 0.0), (-100.0, -0.3), (1.0, 0.25)):
+        d = Phase(cnt, fr)
+        dv = exact(d)[0]
+        sg = 1 if dv > 0 else -1
+        for x in (3 * 2.0 ** 40, 7.5, -7.5, 1000000.5, 2.0 ** 30 * 3, 0.125, 299.99999999999994, 1e15 + 0.5):
+            pv = F(x)
+            fl = math.floor(pv / dv)
+            if abs(fl) > LIM:
+                continue
+            rem = pv - fl * dv
+            near = sg * rem <= TOL or sg * (dv - rem) <= TOL
+            for unit_name, q in (("cycle", x * u.cycle), ("0-d array cycle", np.array(x) * u.cycle)):
+                sub = {"d": [cnt, repr(fr)], "x": repr(x), "form": unit_name}
+                res.state(("quantity-dividend", cnt, fr, x, unit_name))
+                try:
+                    qq, rr = divmod(q, d)
+                    q1, r1 = q // d, q % d
+                except Exception as e:
+                    res.violation("divmod|Quantity dividend|raised", f"{type(e).__name__}: {e} [{sub}]", case, sub)
+                    continue
+                res.transitions += 3
+                for nm, q_, r2 in (("divmod", qq, rr), ("// and %", q1, r1)):
+                    qv = float(u.Quantity(q_).to_value(u.dimensionless_unscaled))
+                    ok_q = int(qv) in ({fl} | ({fl - 1, fl + 1} if near else set()))
+                    rv = exact(r2)[0] if type(r2) is Phase else None
+                    if rv is None:
+                        res.violation("divmod|Quantity dividend|not a Phase", f"({x!r} cycle) {nm} Phase({cnt!r}, {fr!r}): remainder is "
+                                      f"{type(r2).__name__} ({r2!r}): precision silently degraded", case, sub)
+                        break
+                    if not ok_q or abs(int(qv) * dv + rv - pv) > TOL * max(1, abs(int(qv))) or not (-TOL <= sg * rv <= sg * dv + TOL):
+                        res.violation("divmod|Quantity dividend|value", f"({x!r} cycle) {nm} Phase({cnt!r}, {fr!r}): quotient {qv!r}, "
+                                      f"remainder {r2!r}; exact quotient {fl}, remainder {float(rem)!r}", case, sub)
+                        break
+                else:
+                    res.hits["Quantity dividend, Phase divisor"] += 1
+
+
 def divmod_case(case, res):
     n = COUNTS[case["ci"]]
     if case["ci"] == 0:
         phase_divisor_multiples(case, res)
+        quantity_dividend(case, res)
     for f in FRACS:
         p = mk(n, f)
         pv = exact(p)[0]
@@ -576,6 +616,27 @@ def divmod_case(case, res):
                             res.violation(f"divmod|{kind}|{nm}|value", f"in-place remainder of {float(pv)!r} by {float(dv)!r} left "
                                           f"{float(rv)!r} in the target [{sub}]", case, sub)
                     res.hits["in-place remainder"] += 1
+                # the target is the DIVISOR (a copy of it: the grid's own divisor object is used again)
+                if type(obj) is Phase and kind != "Phase array":
+                    for nm, fn in (("np.remainder(p, d, out=d)", lambda q0, dd: np.remainder(q0, dd, out=dd)),
+                                   ("np.divmod(p, d, out=(None, d))", lambda q0, dd: np.divmod(q0, dd, out=(None, dd))[1])):
+                        q0, dd = mk(n, f), obj.copy()
+                        try:
+                            rr = fn(q0, dd)
+                        except Exception as e:
+                            res.violation(f"divmod|{kind}|{nm}|raised", f"{type(e).__name__}: {e} [{sub}]", case, sub)
+                            continue
+                        res.transitions += 1
+                        if rr is not dd:
+                            res.violation(f"divmod|{kind}|{nm}|identity", f"target not returned [{sub}]", case, sub)
+                            continue
+                        rv = exact(dd)[0]
+                        k_ = (pv - rv) / dv
+                        if (exact(q0)[0] != pv or not (-TOL <= rv <= dv + TOL)
+                                or abs(k_ - round(k_)) * dv > TOL * max(1, abs(round(k_)))):
+                            res.violation(f"divmod|{kind}|{nm}|value", f"remainder of {float(pv)!r} by {float(dv)!r} written into the "
+                                          f"divisor: {float(rv)!r} (dividend afterwards {float(exact(q0)[0])!r}) [{sub}]", case, sub)
+                    res.hits["remainder written into the divisor"] += 1
                 if near:
                     res.hits["remainder within 2^-52 of 0 or d (either neighbour accepted)"] += 1
                 if kind == "Phase":
@@ -755,7 +816,7 @@ def main(argv=None):
         required_hits=["exact +-1/2 fraction", "imaginary phase", "factor kinds", "imaginary factor", "same factor array used twice", "in-place real<->imaginary transitions", "addend kinds",
                        "unit-mismatched addend rejected", "out= forms", "Phase divisor", "in-place remainder",
                        "remainder within 2^-52 of 0 or d (either neighbour accepted)", "whole grid as one array",
-                       "trig/exp on fractional part", "construction kinds", "smaller number given first", "Phase divisor needing two doubles", "dividend just below a multiple of the divisor"],
+                       "trig/exp on fractional part", "construction kinds", "smaller number given first", "Phase divisor needing two doubles", "dividend just below a multiple of the divisor", "Quantity dividend, Phase divisor", "remainder written into the divisor"],
         assumptions=["operand values are read back exactly (Fractions of the stored doubles); results beyond 2^52 cycles are outside "
                      "the property", "plain-number divisors of // % divmod are refused by astropy (unit error) and left open",
                      "list * Phase (Python sequence repetition) is not arithmetic"],
